@@ -360,7 +360,7 @@ macs = %s
             # If the policy allows subsets and re-ordered algorithms...
             if self._allow_algorithm_subset_and_reordering:
                 for hostkey_t in kex.key_algorithms:
-                    if hostkey_t not in self._host_keys:
+                    if hostkey_t != '' and hostkey_t not in self._host_keys:  # (An empty name-list is read as [''].)
                         ret = False
                         self._append_error('Host keys', self._host_keys, self._optional_host_keys, kex.key_algorithms)
                         break
@@ -405,7 +405,7 @@ macs = %s
             # If the policy allows subsets and re-ordered algorithms...
             if self._allow_algorithm_subset_and_reordering:
                 for kex_t in kex.kex_algorithms:
-                    if kex_t not in self._kex:
+                    if kex_t != '' and kex_t not in self._kex:
                         ret = False
                         self._append_error('Key exchanges', self._kex, None, kex.kex_algorithms)
                         break
@@ -425,7 +425,7 @@ macs = %s
             # If the policy allows subsets and re-ordered algorithms...
             if self._allow_algorithm_subset_and_reordering:
                 for cipher_t in kex.server.encryption:
-                    if cipher_t not in self._ciphers:
+                    if cipher_t != '' and cipher_t not in self._ciphers:
                         ret = False
                         self._append_error('Ciphers', self._ciphers, None, kex.server.encryption)
                         break
@@ -439,7 +439,7 @@ macs = %s
             # If the policy allows subsets and re-ordered algorithms...
             if self._allow_algorithm_subset_and_reordering:
                 for mac_t in kex.server.mac:
-                    if mac_t not in self._macs:
+                    if mac_t != '' and mac_t not in self._macs:
                         ret = False
                         self._append_error('MACs', self._macs, None, kex.server.mac)
                         break
